@@ -145,3 +145,20 @@ claim("C09",
       "every name given at that split and the name is recorded (AS1a-c). NOT proved: content of regex / keyword tables, capture of not-yet-registered "
       "user names.",
       "regex, HashSet, OnceLock tables, dyn DialectHandler, sqlparser Ident constructors, format! are shims by contract.")
+
+
+def _c16_ids(name):
+    lab = name.split(".", 1)[1]
+    return lab in ("IG1", "IG2", "IG3", "SK1") or lab.startswith("gen.") or lab.startswith("skip.") or lab.endswith("IdGenerator::gen.safety") or "skip" in lab
+
+
+prop("C16", ["toposort", "rq_tables", "ids_names"], select={"ids_names": _c16_ids},
+     not_covered="visibility of ids across joins / sub-pipelines (redirect_mappings over node_mapping: HashMap<usize, LoweredTarget>), declare_as_column, "
+                 "push_select, create_a_table_instance; toposort()'s Key->index map and driver loop")
+claim("C16",
+      "PARTIAL. Proved on the real code: Toposort::visit (the recursive DFS, verbatim) terminates, never panics, and on success keeps the invariant "
+      "'every dependency of a listed node is listed EARLIER' while only appending to the order (TS0-TS4) - the 'declared earlier in the table list' "
+      "clause for the order toposort_tables uses; lower_to_ir emits exactly the lowering buffer, in that order (RT1, RT2); column / table ids are "
+      "handed out strictly increasing and above every loaded id, so no id is defined twice by the generators (IG1-3, SK1). NOT proved: visibility of "
+      "every used id at its point of use (cid redirection through hash maps), select arity.",
+      "toposort()'s HashMap index / outer loop, lower_table_decl and the Lowerer's node_mapping are not under contract.")
